@@ -170,6 +170,100 @@ pub async fn exec(a: &Args) -> Args {
     out
 }
 
+/// Family 602: streams of one kind pile up unaccepted (more than the hand-off channel holds), then the
+/// peer ends the session; calls of the OTHER kind and receive_datagram, pending and later ones, must
+/// report the peer's code and reason (C09, C04).
+/// args: [kind of the backlog (0 uni, 1 bi), count, code, client_role], reason
+pub async fn exec_602(a: &Args) -> Args {
+    let (kind, count, code) = (a[0][0], a[0][1], a[0][2]);
+    let client_role = a[0].get(3).copied().unwrap_or(0) == 1;
+    let reason = a2b(&a[1]);
+    let mut guards: (Option<wtransport::Endpoint<wtransport::endpoint::endpoint_side::Server>>, Option<wtransport::quinn::Endpoint>, Option<wtransport::Endpoint<wtransport::endpoint::endpoint_side::Client>>) = (None, None, None);
+    let (conn, mut raw) = if client_role {
+        match client_establish("/b", None).await {
+            Ok((c, r, rep, cl)) => { guards.1 = Some(rep); guards.2 = Some(cl); (c, r) }
+            Err(_) => return vec![vec![2]],
+        }
+    } else {
+        let (server, addr) = wt_server(None);
+        let ep = raw_client(None);
+        let (app, raw) = tokio::join!(wt_accept(&server), raw_establish(&ep, addr, "/b"));
+        guards.0 = Some(server);
+        guards.1 = Some(ep);
+        match (app, raw) {
+            (Ok(c), Ok(r)) => (c, r),
+            _ => return vec![vec![2]],
+        }
+    };
+    // the backlog: complete, finished WebTransport streams of the live session that nobody accepts
+    let mut keep = vec![];
+    for i in 0..count {
+        if kind == 0 {
+            if let Ok(mut s) = raw.conn.open_uni().await {
+                let mut b = vec![0x40u8, 0x54, 0x00];
+                b.extend(format!("backlog-{}", i).as_bytes());
+                let _ = s.write_all(&b).await;
+                let _ = s.finish();
+                keep.push(s);
+            }
+        } else if let Ok((mut s, r)) = raw.conn.open_bi().await {
+            let mut b = vec![0x40u8, 0x41, 0x00];
+            b.extend(format!("backlog-{}", i).as_bytes());
+            let _ = s.write_all(&b).await;
+            let _ = s.finish();
+            keep.push(s);
+            std::mem::forget(r);
+        }
+    }
+    tokio::time::sleep(Duration::from_millis(200)).await;
+    let c1 = conn.clone();
+    let c3 = conn.clone();
+    let p_other = tokio::spawn(async move { if kind == 0 { call_bi(&c1, T_PEND).await } else { call_uni(&c1, T_PEND).await } });
+    let p_dg = tokio::spawn(async move { call_dg(&c3, T_PEND).await });
+    tokio::time::sleep(Duration::from_millis(80)).await;
+    let cap = raw_frame(0, &close_capsule(code as u32, &reason));
+    let _ = raw.connect_send.write_all(&cap).await;
+    let _ = raw.connect_send.finish();
+    let mut out: Args = vec![vec![1]];
+    push(&mut out, p_other.await.unwrap());
+    push(&mut out, p_dg.await.unwrap());
+    push(&mut out, if kind == 0 { call_bi(&conn, T_SUB).await } else { call_uni(&conn, T_SUB).await });
+    push(&mut out, call_dg(&conn, T_SUB).await);
+    if let Some(s) = &guards.0 { s.close(vi(0), b""); }
+    if let Some(e) = &guards.1 { e.close(qvi(0), b""); }
+    if let Some(c) = &guards.2 { c.close(vi(0), b""); }
+    drop(keep);
+    out
+}
+
+pub fn oracle_602(a: &Args, out: &Args) -> Option<(&'static str, String)> {
+    if out[0][0] != 1 || out.len() < 9 {
+        return None;
+    }
+    let names = ["pending accept of the other kind", "pending receive_datagram", "later accept of the other kind", "later receive_datagram"];
+    for (i, name) in names.iter().enumerate() {
+        let (h, r) = (&out[1 + 2 * i], &out[2 + 2 * i]);
+        if *h != vec![1, a[0][2]] || *r != a[1] {
+            let what = if h.first() == Some(&TAG_PENDING) { "still hanging".to_string() } else { format!("{:?} / reason {:?}", h, r) };
+            return Some(("C09+C04", format!("the peer closed the session with code {} while {} {} streams were waiting unaccepted; the {} reported: {}", a[0][2], a[0][1], if a[0][0] == 0 { "unidirectional" } else { "bidirectional" }, name, what)));
+        }
+    }
+    None
+}
+
+pub fn generate_backlog(rng: &mut Rng, thorough: bool) -> Vec<Case> {
+    let mut cs = vec![];
+    let counts: Vec<(u64, u64)> = if thorough { vec![(0, 3), (0, 5), (0, 6), (0, 9), (0, 20), (1, 1), (1, 2), (1, 3), (1, 6)] } else { vec![(0, 6), (0, 9), (1, 3), (1, 6)] };
+    for (kind, n) in counts {
+        for role in [0u64, 1] {
+            if !thorough && role == 1 && n != 6 { continue; }
+            let code = rng.below(1 << 32);
+            cs.push(Case::new(602, vec![vec![kind, n, code, role], crate::b2s("bye-backlog")], "backlog-then-close"));
+        }
+    }
+    cs
+}
+
 fn dec_vi(b: &[u8], pos: &mut usize) -> Option<u64> {
     let first = *b.get(*pos)?;
     let n = 1usize << (first >> 6);
